@@ -76,6 +76,10 @@ def select__pi_kind_test(self: XPathFunction, context: ta.ContextType = None) \
 def nud__pi_kind_test(self: XPathFunction) -> XPathFunction:
     self.parser.advance('(')
     if self.parser.next_token.symbol != ')':
+        if self.parser.next_token.symbol not in ('(name)', '(string)') and \
+                self.parser.name_pattern.match(self.parser.next_token.symbol) is not None:
+            # a PI target that is also an operator or a function name (e.g. 'pi', 'div')
+            self.parser.next_token = self.parser.next_token.as_name()
         self.parser.next_token.expected('(name)', '(string)')
         self[0:] = self.parser.expression(5),
     self.parser.advance(')')
